@@ -19,6 +19,7 @@ type c05Scenario struct {
 	BackPressure   int        `json:"backpressure_window,omitempty"` // >0: both receive windows are this small and the server stops reading while it sends
 	Held           int        `json:"held_stanzas_before,omitempty"`
 	WebSocket      bool       `json:"websocket"`
+	Fragment       int        `json:"websocket_fragment_every,omitempty"` // >0: every n-th element is sent as a fragmented WebSocket message
 	Component      bool       `json:"component"`
 	Client         ClientOpts `json:"client"`
 	Server         NegScript  `json:"server"`
@@ -40,7 +41,7 @@ func init() {
 		Real:  []string{"xmpp.Client / xmpp.Component receive loops", "xmpp.Router and per-packet route goroutines", "xmpp.XMPPTransport", "stanza.NextPacket and codec"},
 		Stub:  []string{"TCP (simnet)", "XMPP server (scripted model)", "clock (synctest)", "goroutine scheduling (token scheduler)", "sync.RWMutex (equivalent shim)"},
 		Run:   runC05,
-		Reach: []string{"c05.websocket", "c05.backpressure", "c05.r_answered", "c05.after_reconnect"},
+		Reach: []string{"c05.websocket", "c05.websocket_fragmented_message", "c05.backpressure", "c05.r_answered", "c05.after_reconnect"},
 	})
 }
 
@@ -98,6 +99,9 @@ func runC05(e *Engine, g G, o RunOpt) RunInfo {
 			sc.Server.SM = false
 		}
 		io2.MaxBig = 30000 // frames are limited to 32 KiB by the transport
+		if g.Pct("ws-fragmented", 30) {
+			sc.Fragment = g.Range("ws-fragment-every", 1, 3)
+		}
 		io2.AllowSpace = false
 		if n > 25 {
 			n = 25
@@ -176,7 +180,14 @@ func runC05(e *Engine, g G, o RunOpt) RunInfo {
 			}
 			for i := range sc.Inbound {
 				before := wc.Pipe.Srv.TotalWritten
-				err := wc.Send(sc.Inbound[i].Raw)
+				var err error
+				if sc.Fragment > 0 && i%sc.Fragment == 0 && len(sc.Inbound[i].Raw) > 20 {
+					// a server may split a message into several frames
+					err = wc.SendFragmented(sc.Inbound[i].Raw, 2+i%3)
+					e.Probe("c05.websocket_fragmented_message")
+				} else {
+					err = wc.Send(sc.Inbound[i].Raw)
+				}
 				sc.Inbound[i].End = wc.Pipe.Srv.TotalWritten - base
 				if err != nil || wc.Pipe.Srv.TotalWritten == before {
 					// never left the server (the connection was already gone): not part of what was received
